@@ -33,10 +33,14 @@ const DEFS = {
   ikey:   (N, M) => `type ${N} = { k: ${M}['k'] };`,
   fnty:   (N, M) => `type ${N} = (e: ${M}) => void;`,
   keyof:  (N, M) => `type ${N} = Pick<{ k: 1 }, ${M}>;`,
+  // generic declarations (the parameter has a default, so a bare reference stays well-formed); references carry type arguments
+  generic: (N, M) => `type ${N}<T = string> = { g${N}: T; k?: T } & Partial<${M}<T>>;`,
+  genericAlias: (N, M) => `type ${N}<T = string> = ${M}<T[]>;`,
+  genericIface: (N, M) => `interface ${N}<T = string> extends ${M}<T> { k: T }`,
   lits:   (N) => `type ${N} = 'a${N}' | 'b${N}' | 'c${N}';`,
   litsRef:(N, M) => `type ${N} = 'x${N}' | ${M} | 'y${N}';`,
 };
-const DEF_CORE = ['alias', 'union', 'index', 'pick', 'iext', 'imem', 'partial'];
+const DEF_CORE = ['alias', 'union', 'index', 'pick', 'iext', 'imem', 'partial', 'generic'];
 
 function* graphs(n, kinds) {
   const names = NAMES.slice(0, n);
